@@ -11,7 +11,7 @@ def plan(tier):
                 "cfg": "SuffixIndexMC_C03s.cfg" if q else "SuffixIndexMC_C03s_thorough.cfg",
                 "timeout": 3000, "args": ["-coverage", "1"]}],
         "families": [{"fam": "sa", "trace": "SuffixIndexTraceSa", "nfiles": 3 if q else 4, "timeout": 3000}],
-        "required_obligations": ["exhaustive_small", "text_len_1", "text_len_2", "lcp_three_views", "lcp_n2", "lcp_n3", "sus_n2", "sus_n3", "sus_through_sampled_sa", "sample_rate_1", "occ_rate_1", "clone_sampled_sa", "clone_from_sampled_sa_other_text", "resample_multiple_rate", "resample_non_multiple_rate", "resample_multiple_rate_multi_sentinel", "serde_roundtrip_sampled_sa", "serde_roundtrip_sampled_sa_multi_sentinel", "exhaustive_binary_12", "lms_substring_longer_than_lms_count", "more_than_65536_distinct_lms_names", "width_boundary_sweep_250_262", "more_than_65535_sentinels", "text_longer_than_2p24_sampled", "recursion_smallest_witness", "single_lms", "random_multi_sentinel", "random_long", "transform_u16",
+        "required_obligations": ["exhaustive_small", "sample_rate_ge_2p32", "int_u8_max_symbol_253_to_255", "int_u16_max_symbol_65535", "text_len_1", "text_len_2", "lcp_three_views", "lcp_n2", "lcp_n3", "sus_n2", "sus_n3", "sus_through_sampled_sa", "sample_rate_1", "occ_rate_1", "clone_sampled_sa", "clone_from_sampled_sa_other_text", "resample_multiple_rate", "resample_non_multiple_rate", "resample_multiple_rate_multi_sentinel", "serde_roundtrip_sampled_sa", "serde_roundtrip_sampled_sa_multi_sentinel", "exhaustive_binary_12", "lms_substring_longer_than_lms_count", "more_than_65536_distinct_lms_names", "width_boundary_sweep_250_262", "more_than_65535_sentinels", "text_longer_than_2p24_sampled", "recursion_smallest_witness", "single_lms", "random_multi_sentinel", "random_long", "transform_u16",
                                  "transform_u8_limit_255", "transform_u16_limit_256", "int_alphabet_gt_255", "int_u8",
                                  "sample_multi_sentinel", "sample_rate_gt_n", "sample_rate_eq_n", "sample_occ_rate_gt64",
                                  "lcp_plant_126", "lcp_plant_127", "lcp_plant_128", "lcp_plant_200"]
@@ -34,6 +34,9 @@ def plan(tier):
                          "(recursion depth up to 3)",
                    "impl": "n<=2000 random, <=300 repetitive; s in {1,2,3,5,n,n+1}; Occ rates {1,3,64,65,128}"},
         "assumptions": ["ndJsonDeserialize/TLC evaluate the TLA+ definitions faithfully",
+                        "sampling rates >= 2^32 are logged as decimal strings (field s_str) with the surrogate 2^31-1 in "
+                        "`s` (the verdict 'same position as the full array at every index' does not depend on the value); "
+                        "Occ rates are u32 by the code's signature, larger values cannot be passed",
                         "for the > 66,000-sentinel text the harness logs rk[p] = row of sentinel p (a re-indexing of the "
                         "observed array, verified against it by the spec; MC lemma WitnessLemma: same verdict as "
                         "IsValidSA); for the 2^24+1 text only (n, k, s, rows, values) are logged and the suffix array "
